@@ -391,6 +391,19 @@ type c07Env struct {
 // c07Prepare brings the shared rig into a canonical state: caches cleared and
 // the pools warmed by running the scenario's requests alone, which also gives
 // the warm solo observations.
+// c07Prelude serves every alphabet request alone a few times, so that the
+// object pools of the shared rig hold a known population whatever was
+// explored before.
+func c07Prelude(rig *c07Rig) {
+	for round := 0; round < 3; round++ {
+		for i, q := range c07Alphabet {
+			rig.mgr.clearAll()
+			rig.serve(q, uint16(0x200+i))
+		}
+	}
+	rig.mgr.clearAll()
+}
+
 func c07Prepare(rig *c07Rig, sc c07Scenario) (solo []string) {
 	for i, ri := range sc.Reqs {
 		rig.mgr.clearAll()
@@ -459,13 +472,65 @@ func c07Main(t *testing.T, r *vrt.Run) {
 		fresh.srv.VerifC07Release()
 		r.Note("golden %s: %s", q.Name, golden[i])
 	}
+	// Sequential reuse: every sequence of <=2 (thorough <=3) requests on one
+	// fresh stack; each answer must be the fresh-stack answer of its request.
+	seqLen := vrt.Pick(r, 2, 3)
+	r.Bound("stack_sequence_length", seqLen)
+	vrt.Part(r, "sequences", func(emit func(c07Scenario)) {
+		vrt.Sequences(len(c07Alphabet), 2, seqLen, func(seq []int) { emit(c07Scenario{Reqs: append([]int{}, seq...)}) })
+	}, func(sc c07Scenario) []vrt.Finding {
+		fresh := c07NewRig(t.TempDir())
+		defer fresh.srv.VerifC07Release()
+		var obs []string
+		for i, ri := range sc.Reqs {
+			got := fresh.serve(c07Alphabet[ri], uint16(0x100+i))
+			r.Trans(1)
+			obs = append(obs, got)
+			want := strings.Replace(golden[ri], "id=256 ", fmt.Sprintf("id=%d ", 0x100+i), 1)
+			if got != want {
+				return vrt.F("stack/sequential-reuse-changes-answer", "request %s processed after %v on the same stack differs from a fresh stack:\n   used : %s\n   fresh: %s", c07Alphabet[ri].Name, sc.Reqs[:i], got, want)
+			}
+		}
+		r.Class("sequence")
+		r.State(fmt.Sprint(sc.Reqs, obs))
+
+		return nil
+	})
 	var rc c07Case
 	if r.ReplayCase("stack", &rc) {
-		solo := c07Prepare(rig, rc.Scenario)
-		var env *c07Env
-		x := xsched.Replay(rc.Choices, func(s *xsched.Sched) { env = c07Setup(rig, rc.Scenario, s) })
+		var fs []vrt.Finding
+		if os.Getenv("VERIF_REPLAY_MODE") == "prefix" {
+			// Re-run the exploration of the scenario from its start up to the
+			// recorded schedule: reproduces the pool population too.
+			c07Prelude(rig)
+			var env *c07Env
+			var solo []string
+			p := vrt.Pick(r, 1, 2)
+			if len(rc.Scenario.Reqs) > 2 {
+				p = 1
+			}
+			xsched.Explore(xsched.Config{MaxPreemptions: p, MaxDeviations: 0},
+				func(s *xsched.Sched) {
+					solo = c07Prepare(rig, rc.Scenario)
+					env = c07Setup(rig, rc.Scenario, s)
+				},
+				func(x *xsched.Exec) bool {
+					if fmt.Sprint(x.Choices) != fmt.Sprint(rc.Choices) {
+						return true
+					}
+					fs = c07Check(rc.Scenario, golden, solo, env, x)
+
+					return false
+				})
+		} else {
+			c07Prelude(rig)
+			solo := c07Prepare(rig, rc.Scenario)
+			var env *c07Env
+			x := xsched.Replay(rc.Choices, func(s *xsched.Sched) { env = c07Setup(rig, rc.Scenario, s) })
+			fs = c07Check(rc.Scenario, golden, solo, env, x)
+		}
 		r.Eval()
-		r.Report("stack", rc, c07Check(rc.Scenario, golden, solo, env, x))
+		r.Report("stack", rc, fs)
 	}
 	if r.ShouldRun() {
 		shard, nshards := r.NShards()
@@ -496,6 +561,7 @@ func c07Main(t *testing.T, r *vrt.Run) {
 			var env *c07Env
 			var solo []string
 			found := 0
+			c07Prelude(rig)
 			st := xsched.Explore(xsched.Config{MaxPreemptions: p, MaxDeviations: 0, Stop: r.Expired},
 				func(s *xsched.Sched) {
 					execs++
